@@ -64,7 +64,7 @@ DECIDED = {
             "need <= 8 (9 thorough); of the big-decimal fallback the two kernels within reach: Decimal::try_add_digit never writes outside "
             "the digit buffer, Decimal::round is round-half-even on every trimmed decimal of <= 6 digits. "
             "Table-driven float construction, by SMT over the compiler's MIR (crate 'smt'): for every decimal exponent in the stated set "
-            "(quick: both ends of the guard, every 4th exponent and all of -25..40; thorough: every exponent in -345..345) and EVERY "
+            "(quick: both ends of the guard, every 8th exponent and all of -10..30; thorough: every exponent in -345..345) and EVERY "
             "significand 1 <= w < 10^19, every path of parse_float that returns from_u64_bits(raw) with raw computed by "
             "parse_floating_normal_fast has raw == bits of the double nearest (ties to even) to w*10^e, exponent field in 1..=2046 "
             "(finite, normal), and the sign asked for; exponents outside the guard never reach that constructor."),
